@@ -178,8 +178,8 @@ SESSION_RULE = ('operation scripts on the real Session/SessionWriter (sequential
                 'the C01 queue model; non-trivial = script with a channel replacement or a two-piece batch or a rotation; distinct by script')
 
 
-def session_check(ctx, module, theorems, prop, rotations=True):
-    ok = proof_step(ctx, module, theorems)
+def session_check(ctx, module, theorems, prop, rotations=True, extra=None):
+    ok = proof_step(ctx, module, theorems, extra_targets=extra)
     exe = build_harness('session_harness', link_repo=False)
     rng = random.Random(ctx.seed * 1000003 + 2)
     n = cases_count(ctx, 1500, 30000)
@@ -205,13 +205,16 @@ def session_check(ctx, module, theorems, prop, rotations=True):
     return ctx.finish()
 
 
-C11_THEOREMS = []
+C11_THEOREMS = ['BinlogVerif.C11.c11_whole_entries', 'BinlogVerif.C11.c11_writer_prop', 'BinlogVerif.C11.c11_byte_counts',
+                'BinlogVerif.C11.c11_byte_counts_reconsume', 'BinlogVerif.C11.c11_consume_stream',
+                'BinlogVerif.C01.c01_pieces_whole_commits']
 C02_THEOREMS = []
-C03_THEOREMS = []
-C13_THEOREMS = []
+C03_THEOREMS = ['BinlogVerif.C03.c03_source_before_event', 'BinlogVerif.C03.c03_ids_distinct', 'BinlogVerif.C03.c03_each_source_once',
+                'BinlogVerif.Sess.metaInv_exec']
+C13_THEOREMS = ['BinlogVerif.C13.c13_self_contained', 'BinlogVerif.C13.c13_rotation_writes_metadata']
 
 
-def check_c11(ctx): return session_check(ctx, 'BinlogVerif.Props.C11', C11_THEOREMS, 'C11')
+def check_c11(ctx): return session_check(ctx, 'BinlogVerif.Props.C11', C11_THEOREMS, 'C11', extra=['BinlogVerif.Props.C01'])
 def check_c02(ctx): return session_check(ctx, 'BinlogVerif.Props.C02', C02_THEOREMS, 'C02')
 def check_c03(ctx): return session_check(ctx, 'BinlogVerif.Props.C03', C03_THEOREMS, 'C03')
 def check_c13(ctx): return session_check(ctx, 'BinlogVerif.Props.C13', C13_THEOREMS, 'C13')
